@@ -71,6 +71,10 @@ const (
 	binUnkownType byte = 255
 )
 
+// maxPrealloc is the largest buffer allocated up front from a length prefix
+// read from a reader that cannot report its remaining length.
+const maxPrealloc = 1 << 20
+
 var (
 	errVarintTooSmall = errors.New("read varint error: buf too small")
 	errVarintOverflow = errors.New("read varint error: value larger than 64 bits (overflow)")
@@ -369,14 +373,31 @@ func DecodeObject(r io.Reader) (ugo.Object, error) {
 			return nil, errors.New("negative value")
 		}
 
-		n := 1 + len(readBytes)
-		buf := make([]byte, n+int(value))
-		buf[0] = btype
-		copy(buf[1:], readBytes)
+		if l, ok := r.(interface{ Len() int }); ok && value > int64(l.Len()) {
+			return nil, io.ErrUnexpectedEOF
+		}
 
-		if value > 0 {
-			if _, err = io.ReadFull(r, buf[n:]); err != nil {
+		n := 1 + len(readBytes)
+		var buf []byte
+		if value > maxPrealloc {
+			// do not trust the length prefix of an unbounded reader for
+			// allocation, let the buffer grow with the data actually read
+			var b bytes.Buffer
+			b.WriteByte(btype)
+			b.Write(readBytes)
+			if _, err = io.CopyN(&b, r, value); err != nil {
 				return nil, err
+			}
+			buf = b.Bytes()
+		} else {
+			buf = make([]byte, n+int(value))
+			buf[0] = btype
+			copy(buf[1:], readBytes)
+
+			if value > 0 {
+				if _, err = io.ReadFull(r, buf[n:]); err != nil {
+					return nil, err
+				}
 			}
 		}
 
@@ -809,6 +830,10 @@ func (o *Array) UnmarshalBinary(data []byte) error {
 		return err
 	}
 
+	if length < 0 || length > int64(rd.Len()) {
+		return errors.New("invalid ugo.Array length")
+	}
+
 	arr := make([]ugo.Object, 0, int(length))
 	for rd.Len() > 0 {
 		o, err := DecodeObject(rd)
@@ -1065,6 +1090,10 @@ func (o *CompiledFunction) UnmarshalBinary(data []byte) error {
 				return err
 			}
 
+			if length < 0 || length > int64(rd.Len()) {
+				return errors.New("invalid source map length")
+			}
+
 			sz := int(length / 2)
 			// always put size to the map to decode faster
 			o.SourceMap = make(map[int]int, sz)
@@ -1233,6 +1262,10 @@ func (sf *SourceFile) UnmarshalBinary(data []byte) error {
 		return err
 	}
 
+	if v < 0 || v > int64(rd.Len()) {
+		return errors.New("invalid number of lines")
+	}
+
 	length := int(v)
 
 	lines := make([]int, length)
@@ -1295,6 +1328,10 @@ func (sfs *SourceFileSet) UnmarshalBinary(data []byte) error {
 		return err
 	}
 
+	if v < 0 || v > int64(rd.Len()) {
+		return errors.New("invalid number of files")
+	}
+
 	length := int(v)
 	files := make([]*parser.SourceFile, length)
 
@@ -1303,6 +1340,10 @@ func (sfs *SourceFileSet) UnmarshalBinary(data []byte) error {
 		if err != nil {
 			return err
 		}
+		if v < 0 || v > int64(rd.Len()) {
+			return io.ErrUnexpectedEOF
+		}
+
 		data := make([]byte, v)
 		if _, err = io.ReadFull(rd, data); err != nil {
 			return err
